@@ -14,6 +14,7 @@ import (
 
 	"verif/harness/internal/dom"
 	"verif/harness/internal/pbt"
+	"verif/harness/internal/via"
 )
 
 func TestMain(m *testing.M) { pbt.Main(m, "C04") }
@@ -38,6 +39,7 @@ type set interface {
 	Empty() bool
 	Values() []int
 	FromJSON([]byte) error
+	UnmarshalJSON([]byte) error
 }
 
 const domainHi = 8
@@ -160,7 +162,7 @@ func check(c Case) (pbt.Info, error) {
 			}
 			doc, _ := json.Marshal(append([]int{}, op.Vs...))
 			for si, s := range sets {
-				if err := s.FromJSON(doc); err != nil {
+				if err := via.Auto(s, doc); err != nil {
 					return info, fmt.Errorf("%s step %d: FromJSON(%s) failed: %v", names[si], i, doc, err)
 				}
 			}
@@ -240,7 +242,7 @@ func genLarge(t *rapid.T) Case {
 	c := Case{Hi: 47}
 	huge := rapid.IntRange(0, 5).Draw(t, "huge") == 0
 	if huge {
-		c.Hi = 420 // hundreds of members
+		c.Hi = pbt.Size(420) // hundreds of members (thorough tier: well over a thousand)
 	}
 	v := func(label string, maxN int) []int {
 		if huge && rapid.IntRange(0, 3).Draw(t, "many-args") == 0 {
@@ -250,7 +252,7 @@ func genLarge(t *rapid.T) Case {
 	}
 	c.Init = v("init", 20)
 	if huge {
-		n := rapid.IntRange(150, 400).Draw(t, "fill")
+		n := rapid.IntRange(150, pbt.Size(400)).Draw(t, "fill")
 		start := rapid.IntRange(0, c.Hi).Draw(t, "fillstart")
 		for i := 0; i < n; i++ {
 			c.Init = append(c.Init, (start+i*11)%(c.Hi+1))
